@@ -1,9 +1,14 @@
 """py2lean emitter (C32): write-set extraction.  For every selected function/method, list the statements that
 write through a caller-owned name (the `atoms` parameter, or the receiver's observable state `self.metadata`,
-`self.array`, `self._ensemble_axes_metadata`) before that name has been rebound to a copy.  Flow-insensitive inside
-branches, aliases (`cell = atoms.cell`) are followed, only `x = x.copy()` / `copy(x)` / `deepcopy(x)` makes a name
+`self.array`, `self._ensemble_axes_metadata`) before that name has been rebound to a copy.  Statements are scanned in order; after an `if`/loop/`try` a name counts as rebound to a copy only if that
+happened on every path, aliases (`cell = atoms.cell`) are followed, only `x = x.copy()` / `copy(x)` / `deepcopy(x)` makes a name
 fresh.  An over-approximation of direct writes in the function body; writes inside callees are not seen.
-site = {gen, name, file, emitter: "py2lean_writes:emit", select: "param:atoms" | "methods"}"""
+Two extensions (still an over-approximation of what they look at, still blind beyond them):
+* one call level deep: passing an owned name to a function defined at top level of the same file whose own body writes
+  through the corresponding parameter is reported as `line:callee(arg) -> <callee write>`;
+* escaped fields (select "param_any:<p>"): when a method stores the caller's object in a field (`self._atoms = atoms`,
+  without a copy), writes rooted at that field in ANY method of the class are reported.
+site = {gen, name, file, emitter: "py2lean_writes:emit", select: "param:atoms" | "methods" | "param_any:atoms"}"""
 import ast
 import hashlib
 
@@ -27,10 +32,13 @@ def root_chain(node):
 
 
 class Scan:
-    def __init__(self, roots, self_mode):
+    def __init__(self, roots, self_mode, callee_writes=None, fields=()):
         self.owned = set(roots)
         self.self_mode = self_mode
         self.writes = []
+        self.callee_writes = callee_writes or {}   # function name -> {param name: [writes]}, + "__params__"
+        self.fields = set(fields)                   # escaped fields: `self.<f>` is caller-owned
+        self.escaped = []                           # fields assigned from an owned name in this function
 
     def owned_target(self, node):
         root, attrs = root_chain(node)
@@ -38,6 +46,8 @@ class Scan:
             return False
         if self.self_mode and root == "self":
             return bool(attrs) and attrs[0] in STATE_ATTRS
+        if root == "self" and "self" in self.owned and self.fields:
+            return len(attrs) >= 2 and attrs[0] in self.fields   # a write *through* the stored object, not re-binding the field
         return True
 
     def is_fresh(self, value):
@@ -69,6 +79,9 @@ class Scan:
         if isinstance(t, (ast.Attribute, ast.Subscript)):
             if self.owned_target(t):
                 self.note(node, ast.unparse(t)[:60] + " = …")
+            if isinstance(t, ast.Attribute) and isinstance(t.value, ast.Name) and t.value.id == "self" and value is not None \
+                    and isinstance(value, ast.Name) and value.id in self.owned and value.id != "self":
+                self.escaped.append(t.attr)
             return
         if isinstance(t, ast.Name):
             if value is not None and self.is_fresh(value):
@@ -79,8 +92,25 @@ class Scan:
                     isinstance(n, ast.Name) and n.id in self.owned for n in ast.walk(value)):
                 self.owned.discard(t.id)  # rebound to something that does not mention a caller-owned name
 
+    def arg_owned(self, a):
+        if isinstance(a, ast.Name):
+            return a.id in self.owned and not (a.id == "self")
+        if isinstance(a, (ast.Attribute, ast.Subscript)):
+            root, attrs = root_chain(a)
+            if root == "self" and self.fields:
+                return bool(attrs) and attrs[0] in self.fields and len(attrs) == 1
+            return root in self.owned and root != "self"
+        return False
+
     def calls(self, node):
         for n in ast.walk(node):
+            if isinstance(n, ast.Call) and isinstance(n.func, ast.Name) and n.func.id in self.callee_writes:
+                info = self.callee_writes[n.func.id]
+                params = info["__params__"]
+                bound = list(zip(params, n.args)) + [(k.arg, k.value) for k in n.keywords if k.arg]
+                for pname, a in bound:
+                    if self.arg_owned(a) and info.get(pname):
+                        self.note(n, f"{n.func.id}({ast.unparse(a)[:30]}) -> {info[pname][0]}")
             if isinstance(n, ast.Call) and isinstance(n.func, ast.Attribute) and n.func.attr in ATOMS_MUTATORS:
                 if self.owned_target(n.func.value) or (isinstance(n.func.value, ast.Name) and n.func.value.id in self.owned
                                                        and not (self.self_mode and n.func.value.id == "self")):
@@ -106,24 +136,33 @@ class Scan:
                 for t in st.targets:
                     if isinstance(t, (ast.Attribute, ast.Subscript)) and self.owned_target(t):
                         self.note(st, "del " + ast.unparse(t)[:60])
-            elif isinstance(st, (ast.If, ast.While)):
+            elif isinstance(st, ast.If):
+                # a name is fresh after the statement only if it became fresh on both paths
                 self.calls(st.test)
+                before = set(self.owned)
+                self.block(st.body)
+                after_body = set(self.owned)
+                self.owned = set(before)
+                self.block(st.orelse)
+                self.owned = after_body | self.owned
+            elif isinstance(st, (ast.While, ast.For, ast.AsyncFor)):
+                self.calls(st.test if isinstance(st, ast.While) else st.iter)
+                before = set(self.owned)
                 self.block(st.body)
                 self.block(st.orelse)
-            elif isinstance(st, (ast.For, ast.AsyncFor)):
-                self.calls(st.iter)
-                self.block(st.body)
-                self.block(st.orelse)
+                self.owned = before | self.owned      # the body may not run
             elif isinstance(st, (ast.With, ast.AsyncWith)):
                 for it in st.items:
                     self.calls(it.context_expr)
                 self.block(st.body)
             elif isinstance(st, ast.Try):
+                before = set(self.owned)
                 self.block(st.body)
                 for h in st.handlers:
                     self.block(h.body)
                 self.block(st.orelse)
                 self.block(st.finalbody)
+                self.owned = before | self.owned
             else:
                 self.calls(st)
 
@@ -136,13 +175,46 @@ def emit(src, site, mode):
     from py2lean import Unsupported
     tree = src.tree(site["file"])
     rows = []
+    # direct write sets of every top-level function, per parameter (for the one-level-deep step)
+    callee = {}
+    for n in tree.body:
+        if isinstance(n, ast.FunctionDef):
+            params = [a.arg for a in n.args.args]
+            info = {"__params__": params}
+            for q in params + [a.arg for a in n.args.kwonlyargs]:
+                sc0 = Scan({q}, False)
+                sc0.block(n.body)
+                if sc0.writes:
+                    info[q] = sc0.writes
+            callee[n.name] = info
     if site["select"].startswith("param:"):
         pname = site["select"].split(":")[1]
         for n in tree.body:
             if isinstance(n, ast.FunctionDef) and any(a.arg == pname for a in n.args.args + n.args.kwonlyargs):
-                sc = Scan({pname}, False)
+                sc = Scan({pname}, False, callee)
                 sc.block(n.body)
                 rows.append((n.name, sc.writes))
+    elif site["select"].startswith("param_any:"):
+        pname = site["select"].split(":")[1]
+        for n in tree.body:
+            if isinstance(n, ast.FunctionDef) and any(a.arg == pname for a in n.args.args + n.args.kwonlyargs):
+                sc = Scan({pname}, False, callee)
+                sc.block(n.body)
+                rows.append((n.name, sc.writes))
+            if isinstance(n, ast.ClassDef):
+                methods = [m for m in n.body if isinstance(m, ast.FunctionDef)]
+                fields = []
+                for m in methods:
+                    if any(a.arg == pname for a in m.args.args + m.args.kwonlyargs):
+                        sc = Scan({pname}, False, callee)
+                        sc.block(m.body)
+                        rows.append((f"{n.name}.{m.name}", sc.writes))
+                        fields += sc.escaped
+                if fields:
+                    for m in methods:
+                        sc = Scan({"self"}, False, callee, fields=fields)
+                        sc.block(m.body)
+                        rows.append((f"{n.name}.{m.name}[stored {','.join(sorted(set(fields)))}]", sc.writes))
     elif site["select"] == "methods":
         for c in tree.body:
             if not isinstance(c, ast.ClassDef):
